@@ -5,14 +5,18 @@ package main
 // `switch <session>.<state> { case AUTHORIZATION: <session>.h(cmd, args) … }`, a state's handler is what that switch calls.
 //   commandKeys / commandVals      the package's command set (its one package-level map[string]bool literal)
 //   dispatchStates                 the states the loop dispatches, in source order
-//   authCases / transCases         the string case labels of the switch on the command word in the two handlers, and
-//                                  whether a default exists
-//   loopTests                      the `if` conditions on the command word in the loop, in source order (CAPA first)
+//   authCases / transCases         the command words the paths of the two handlers compare the command equal to (sorted),
+//                                  and whether a default exists — read off EXECUTED paths (kit_t1a.go), so a switch, an
+//                                  if-chain or a table in a helper are the same table
+//   loopTests                      what a path of the loop that reaches the state dispatch has decided about the command
+//                                  word, in order (not CAPA, not empty, a known command)
 //   loopCond                       the condition of the command loop ($s = the session)
-//   storeReach                     (state, clause label, Store method) for every storage.Store method a clause of a
-//                                  handler can reach through the package's own functions; ("", "loop", m) for one the
-//                                  loop reaches outside the dispatch, ("", "elsewhere", m) for any other call
+//   storeReach                     (state, command word, Store method) for every storage.Store method called on a path
+//                                  of that row of a handler (the package's own functions executed in place); ("", "loop",
+//                                  m) for a path of the loop outside the dispatch, ("", "elsewhere", m) for any other call
 //   parseIntArgs                   the distinct (base, bitSize) of strconv.ParseInt calls in the package
+//   usesPolicy / userVerbatim      whether the package consults the address policy, and whether the mailbox key is the
+//                                  client's first argument word verbatim (pop3UserVerbatim below; tied in Tie/Addr2.lean)
 
 import (
 	"fmt"
@@ -74,40 +78,6 @@ func pop3StoreMethods() map[string]bool {
 	return res
 }
 
-// pop3Reach: the Store methods called from the nodes, directly or through the package's own functions (source order).
-func pop3Reach(p *k1Pkg, store map[string]bool, nodes []ast.Node, seen map[*ast.FuncDecl]bool, out *[]string, skip map[ast.Node]bool) {
-	for _, n := range nodes {
-		if n == nil {
-			continue
-		}
-		ast.Inspect(n, func(x ast.Node) bool {
-			if x != nil && skip[x] {
-				return false
-			}
-			ce, ok := x.(*ast.CallExpr)
-			if !ok {
-				return true
-			}
-			if sel, ok := ce.Fun.(*ast.SelectorExpr); ok && store[sel.Sel.Name] && p.resolve(ce) == nil {
-				dup := false
-				for _, m := range *out {
-					if m == sel.Sel.Name {
-						dup = true
-					}
-				}
-				if !dup {
-					*out = append(*out, sel.Sel.Name)
-				}
-			}
-			if fd := p.resolve(ce); fd != nil && !seen[fd] {
-				seen[fd] = true
-				pop3Reach(p, store, []ast.Node{fd.Body}, seen, out, skip)
-			}
-			return true
-		})
-	}
-}
-
 func pop3Triples(ts [][3]string) string {
 	p := []string{}
 	for _, x := range ts {
@@ -134,106 +104,152 @@ func extractPop3() {
 		states = d.states
 	}
 	g.def("dispatchStates", "List String", strList(states), "the states the command loop dispatches to a handler(cmd, args), in source order")
-	emitCases := func(name, state string) {
-		var s *k1Switch
-		if d != nil && d.handlers[state] != nil {
-			s = k1TopSwitch(d.handlerEnv(p, state), d.handlers[state].Body)
+	// ---- the tables, the tests of the loop and the places where the store is touched: read off EXECUTED paths
+	// (kit_t1a.go), not off `switch` statements: a table written as an if-chain, moved into a helper or followed by its
+	// default case is the same table.  The only events are the calls of storage.Store methods, so only the helpers that
+	// reach the store are executed in place.
+	store := pop3StoreMethods()
+	walker := func() *k2Walker {
+		w := k2NewWalker(p)
+		w.classify = func(e *k1Env, ce *ast.CallExpr) (string, bool) {
+			if p.resolve(ce) != nil {
+				return "", true
+			}
+			if sel, ok := ce.Fun.(*ast.SelectorExpr); ok && store[sel.Sel.Name] {
+				return "call:" + sel.Sel.Name, false
+			}
+			return "", false
 		}
-		if s == nil {
+		return w
+	}
+	var reach [][3]string
+	seenReach := map[[3]string]bool{}
+	addReach := func(t [3]string) {
+		if !seenReach[t] {
+			seenReach[t] = true
+			reach = append(reach, t)
+		}
+	}
+	storeEvents := func(items []string) []string {
+		var ms []string
+		for _, it := range items {
+			it = strings.TrimPrefix(strings.TrimPrefix(it, "*"), "defer:")
+			if strings.HasPrefix(it, "call:") {
+				ms = append(ms, it[5:])
+			}
+			if strings.HasPrefix(it, "unknown:") {
+				ms = append(ms, it)
+			}
+		}
+		return ms
+	}
+	emitCases := func(name, state string) {
+		if d == nil || d.handlers[state] == nil {
 			g.def(name, "Option (List (List Nat) × Bool)", "none", "command table of the "+state+" handler not recognised")
 			return
 		}
+		w := walker()
+		labels, _, paths := smtpTable(w.paths(d.handlerEnv(p, state), nil, d.handlers[state].Body.List))
 		ls := []string{}
 		def := false
-		for _, l := range s.labels {
-			if len(l) == 1 && l[0] == "<default>" {
-				def = true
-				continue
+		for _, row := range labels {
+			for _, l := range strings.Split(row, ",") {
+				if l == "<default>" {
+					def = true
+				} else {
+					ls = append(ls, l)
+				}
+				for _, x := range paths[row] {
+					for _, m := range storeEvents(x.items) {
+						addReach([3]string{state, l, m})
+					}
+				}
 			}
-			ls = append(ls, l...)
 		}
+		sort.Strings(ls)
 		g.def(name, "Option (List (List Nat) × Bool)", fmt.Sprintf("some (%s, %v)", bytesList(ls), def),
-			"case labels of the switch on the command word in the "+state+" handler (source order) and whether it has a default clause")
+			"the command words the paths of the "+state+" handler compare the command equal to (sorted), and whether some path compares it equal to none (the default)")
 	}
 	emitCases("authCases", "AUTHORIZATION")
 	emitCases("transCases", "TRANSACTION")
 
 	// the tests on the command word in the command loop, and the loop condition
-	tests := []string{}
+	tests := []string{"?"}
 	loopCond := ""
+	reached := map[*ast.FuncDecl]bool{}
 	if d != nil {
 		if d.loop != nil && d.loop.Cond != nil {
 			loopCond = d.env.canon(d.loop.Cond)
 		}
-		ast.Inspect(d.fn.Body, func(n ast.Node) bool {
-			if is, ok := n.(*ast.IfStmt); ok {
-				if c := d.env.canon(is.Cond); strings.Contains(c, "$cmd") {
-					tests = append(tests, c)
+		if d.loop != nil {
+			w := walker()
+			w.pinned = map[*ast.Object]bool{d.cmd: true, d.arg: true}
+			isHandler := map[*ast.FuncDecl]bool{}
+			for _, h := range d.handlers {
+				isHandler[h] = true
+			}
+			inner := w.classify
+			w.classify = func(e *k1Env, ce *ast.CallExpr) (string, bool) {
+				if fd := p.resolve(ce); fd != nil && isHandler[fd] {
+					return "dispatch", false
+				}
+				return inner(e, ce)
+			}
+			// what a path to the state dispatch has decided about the command word, in the order it was decided
+			set := map[string]bool{}
+			var lists [][]string
+			for _, x := range k2CanonicalPaths(w.paths(d.env, nil, d.loop.Body.List)) {
+				dispatched := false
+				var l []string
+				for _, it := range x.items {
+					if it == "dispatch" {
+						dispatched = true
+					}
+					if strings.HasPrefix(it, "[") && strings.Contains(it, "$cmd") {
+						l = append(l, it[1:len(it)-1])
+					}
+				}
+				if dispatched {
+					if k := strings.Join(l, "\x00"); !set[k] {
+						set[k] = true
+						lists = append(lists, l)
+					}
+				} else {
+					for _, m := range storeEvents(x.items) {
+						addReach([3]string{"", "loop", m})
+					}
 				}
 			}
-			return true
-		})
+			if len(lists) == 1 {
+				tests = lists[0]
+			}
+		}
+		smtpReach(p, d.fn, reached)
 	}
-	g.def("loopTests", "List String", strList(tests), "`if` conditions on the command word ($cmd) inside the command loop's function, in source order")
+	g.def("loopTests", "List String", strList(tests), "what every path through the command loop that reaches the state dispatch has decided about the command word ($cmd), in the order it was decided")
 	g.def("loopCond", "String", leanStr(loopCond), "condition of the command loop ($s = the session)")
 
-	// where the store is touched
-	store := pop3StoreMethods()
-	var reach [][3]string
-	touched := map[*ast.FuncDecl]bool{}
-	if d != nil {
-		for _, st := range d.states {
-			s := k1TopSwitch(d.handlerEnv(p, st), d.handlers[st].Body)
-			if s == nil {
-				reach = append(reach, [3]string{st, "?", "?"})
-				continue
-			}
-			inSwitch := map[ast.Node]bool{s.sw: true}
-			for i, cc := range s.clauses {
-				var ms []string
-				seen := map[*ast.FuncDecl]bool{}
-				pop3Reach(p, store, k1ClauseNodes(cc), seen, &ms, nil)
-				for fd := range seen {
-					touched[fd] = true
-				}
-				for _, m := range ms {
-					reach = append(reach, [3]string{st, strings.Join(s.labels[i], ","), m})
-				}
-			}
-			// the handler outside its table
-			var ms []string
-			seen := map[*ast.FuncDecl]bool{d.handlers[st]: true}
-			pop3Reach(p, store, []ast.Node{d.handlers[st].Body}, seen, &ms, inSwitch)
-			for fd := range seen {
-				touched[fd] = true
-			}
-			for _, m := range ms {
-				reach = append(reach, [3]string{st, "", m})
-			}
-		}
-		// the loop outside the dispatch
-		var ms []string
-		seen := map[*ast.FuncDecl]bool{d.fn: true}
-		pop3Reach(p, store, []ast.Node{d.fn.Body}, seen, &ms, map[ast.Node]bool{d.sw: true})
-		for fd := range seen {
-			touched[fd] = true
-		}
-		for _, m := range ms {
-			reach = append(reach, [3]string{"", "loop", m})
-		}
-	}
-	// anything else in the package
+	// anything the loop cannot reach
 	for _, fd := range p.funcs {
-		if touched[fd] {
+		if reached[fd] {
 			continue
 		}
 		for _, ce := range k1Calls(fd.Body) {
 			if sel, ok := ce.Fun.(*ast.SelectorExpr); ok && store[sel.Sel.Name] && p.resolve(ce) == nil {
-				reach = append(reach, [3]string{"", "elsewhere", sel.Sel.Name})
+				addReach([3]string{"", "elsewhere", sel.Sel.Name})
 			}
 		}
 	}
-	g.def("storeReach", "List (String × String × String)", pop3Triples(reach), "(state, clause, Store method) for every method of storage.Store a clause can reach through the package's own functions; (\"\", \"loop\" | \"elsewhere\", m) for calls outside the handlers' tables")
+	sort.SliceStable(reach, func(i, j int) bool {
+		if reach[i][0] != reach[j][0] {
+			return reach[i][0] < reach[j][0]
+		}
+		if reach[i][1] != reach[j][1] {
+			return reach[i][1] < reach[j][1]
+		}
+		return reach[i][2] < reach[j][2]
+	})
+	g.def("storeReach", "List (String × String × String)", pop3Triples(reach), "(state, command word, Store method) for every method of storage.Store called on a path of that row of a handler's table (the package's own functions executed in place); (\"\", \"loop\", m) for a call on a path of the command loop that does not go through the dispatch, (\"\", \"elsewhere\", m) for one in a function the loop cannot reach; sorted")
 
 	piArgs := map[string]bool{}
 	for _, fd := range p.funcs {
@@ -250,4 +266,202 @@ func extractPop3() {
 	}
 	sort.Strings(pis)
 	g.def("parseIntArgs", "List String", strList(pis), "distinct (base,bitSize) of the strconv.ParseInt calls")
+
+	// ---- POP3 and the address policy (C04)
+	usesPolicy := len(p.files) == 0 // unreadable: make the tie fail
+	for _, f := range p.files {
+		for _, im := range f.Imports {
+			if ip, ok := strLit(im.Path); ok && strings.HasSuffix(ip, "/pkg/policy") {
+				usesPolicy = true
+			}
+		}
+		ast.Inspect(f, func(n ast.Node) bool {
+			if id, ok := n.(*ast.Ident); ok && (id.Name == "ExtractMailbox" || id.Name == "MailboxForAddress") {
+				usesPolicy = true
+			}
+			return true
+		})
+	}
+	g.def("usesPolicy", "Bool", axLeanBool(usesPolicy), "some non-test file of pkg/server/pop3 imports pkg/policy or mentions ExtractMailbox / MailboxForAddress")
+	why := pop3UserVerbatim(p, d)
+	g.def("userVerbatim", "Bool", axLeanBool(why == ""),
+		"the session field handed to Store.GetMessages (the mailbox key) is only ever assigned `A[0]`, inside the handler that has the USER clause (once in that clause), where A is that handler's never-written "+
+			"argument-list parameter; A is result 1 of the command parser at the one call of the handler, and the parser returns the words after the first blank of the line (after at most trimming CR / LF) unchanged: "+
+			"strings.Split(line, \" \")[1:], or strings.Cut(line, \" \") followed by strings.Split(rest, \" \")"+
+			map[bool]string{true: "", false: " — NOT recognised: " + why}[why == ""])
+}
+
+// pop3UserVerbatim: "" when the mailbox key is the client's first argument word verbatim (see the fact's comment),
+// else what was not recognised.  Everything is found by role: the key field is what GetMessages is handed, the handler
+// is the one of the state dispatch whose table has the USER clause, the parser is what its argument list comes from.
+func pop3UserVerbatim(p *k1Pkg, d *k1Dispatch) string {
+	if d == nil {
+		return "no state dispatch"
+	}
+	// the key field: every GetMessages call is `<x>.GetMessages($r.F)` with one F
+	field := ""
+	for _, fd := range p.funcs {
+		e := k1NewEnv(p, fd)
+		for _, ce := range k1Calls(fd.Body) {
+			if !k1SelCall(ce, "GetMessages") || p.resolve(ce) != nil {
+				continue
+			}
+			if len(ce.Args) != 1 {
+				return "GetMessages call shape"
+			}
+			a := e.canon(ce.Args[0])
+			if !strings.HasPrefix(a, "$r.") || strings.Contains(a[3:], ".") || strings.ContainsAny(a[3:], "([ ") || (field != "" && field != a[3:]) {
+				return "GetMessages argument is not one session field"
+			}
+			field = a[3:]
+		}
+	}
+	if field == "" {
+		return "no GetMessages call"
+	}
+	// the handler with the USER clause
+	var auth *ast.FuncDecl
+	var userClause *ast.CaseClause
+	authState := ""
+	for _, st := range d.states {
+		if s := k1TopSwitch(d.handlerEnv(p, st), d.handlers[st].Body); s != nil {
+			if cc := s.clause("USER"); cc != nil {
+				if auth != nil {
+					return "two handlers with a USER clause"
+				}
+				auth, userClause, authState = d.handlers[st], cc, st
+			}
+		}
+	}
+	if auth == nil {
+		return "no handler with a USER clause"
+	}
+	he := d.handlerEnv(p, authState)
+	// (a) every assignment to the field, anywhere in the package, is `$r.F = $arg[0]` inside that handler
+	total, inUser := 0, 0
+	bad := ""
+	for _, fd := range p.funcs {
+		e := k1NewEnv(p, fd)
+		if fd == auth {
+			e = he
+		}
+		ast.Inspect(fd.Body, func(n ast.Node) bool {
+			switch v := n.(type) {
+			case *ast.AssignStmt:
+				for i, l := range v.Lhs {
+					se, ok := k1Unparen(l).(*ast.SelectorExpr)
+					if !ok || se.Sel.Name != field {
+						if ie, isIdx := k1Unparen(l).(*ast.IndexExpr); isIdx && fd == auth && e.canon(ie.X) == "$arg" {
+							bad = "the handler writes into its argument list"
+						}
+						continue
+					}
+					total++
+					if fd != auth || v.Tok != token.ASSIGN || len(v.Lhs) != len(v.Rhs) || e.canon(l) != "$r."+field || e.canon(v.Rhs[i]) != "$arg[0]" {
+						bad = "an assignment to the key field is not `$r." + field + " = $arg[0]` in the USER handler"
+					} else if userClause.Pos() <= v.Pos() && v.End() <= userClause.End() {
+						inUser++
+					}
+				}
+			case *ast.IncDecStmt:
+				if se, ok := k1Unparen(v.X).(*ast.SelectorExpr); ok && se.Sel.Name == field {
+					bad = "++ / -- on the key field"
+				}
+			case *ast.UnaryExpr:
+				if se, ok := k1Unparen(v.X).(*ast.SelectorExpr); ok && v.Op == token.AND && se.Sel.Name == field {
+					bad = "address of the key field taken"
+				}
+			case *ast.KeyValueExpr:
+				if id, ok := v.Key.(*ast.Ident); ok && id.Name == field {
+					bad = "a composite literal sets the key field"
+				}
+			}
+			return true
+		})
+	}
+	if bad != "" {
+		return bad
+	}
+	if total < 1 || inUser != 1 {
+		return "the USER clause does not hold exactly one of the assignments"
+	}
+	// (b) the handler is called once, by the dispatch, with the argument list the parser returned
+	ncalls := 0
+	for _, fd := range p.funcs {
+		for _, ce := range k1Calls(fd.Body) {
+			if p.resolve(ce) == auth {
+				ncalls++
+			}
+		}
+	}
+	if ncalls != 1 || d.calls[authState] == nil {
+		return "the USER handler is not called exactly once (by the dispatch)"
+	}
+	ds := d.env.defs[d.arg]
+	if len(ds) != 1 || d.env.dirty[d.arg] || ds[0].rhs == nil || ds[0].idx != 1 {
+		return "the argument list is not result 1 of one call"
+	}
+	pc, ok := k1Unparen(ds[0].rhs).(*ast.CallExpr)
+	if !ok {
+		return "the argument list is not result 1 of one call"
+	}
+	parser := p.resolve(pc)
+	if parser == nil || parser.Body == nil || k1NumResults(parser) != 2 || parser.Type.Params == nil || len(parser.Type.Params.List) != 1 ||
+		len(parser.Type.Params.List[0].Names) != 1 || src(parser.Type.Params.List[0].Type) != "string" {
+		return "command parser not found"
+	}
+	var rts []string
+	for _, f := range parser.Type.Results.List {
+		n := len(f.Names)
+		if n == 0 {
+			n = 1
+		}
+		for i := 0; i < n; i++ {
+			rts = append(rts, src(f.Type))
+		}
+	}
+	if len(rts) != 2 || rts[0] != "string" || rts[1] != "[]string" {
+		return "command parser signature"
+	}
+	// (c) the parser, path by path: what it returns as the argument list
+	w := k2NewWalker(p)
+	w.classify = func(*k1Env, *ast.CallExpr) (string, bool) { return "", false }
+	w.opaque = func(*ast.FuncDecl) bool { return true }
+	pe := k1NewEnv(p, parser)
+	some := false
+	for _, x := range w.paths(pe, nil, parser.Body.List) {
+		if len(x.rets) != 2 || x.term != "return" {
+			return "command parser: an exit without two results"
+		}
+		has := func(g string) bool {
+			for _, it := range x.items {
+				if it == "["+g+"]" {
+					return true
+				}
+			}
+			return false
+		}
+		okPath := false
+		for _, line := range []string{"$p", `strings.TrimRight($p, "\r\n")`} {
+			cut := "strings.Cut(" + line + `, " ")`
+			split := "strings.Split(" + line + `, " ")`
+			switch {
+			case x.rets[0] == `""` && x.rets[1] == "nil" && has(line+` == ""`):
+				okPath = true // the empty line: no command at all
+			case x.rets[0] == "strings.ToUpper("+split+"[0])" && x.rets[1] == split+"[1:]":
+				okPath, some = true, true
+			case x.rets[0] == "strings.ToUpper("+cut+"#0)" && x.rets[1] == "strings.Split("+cut+`#1, " ")` && has(cut+"#2"):
+				okPath, some = true, true
+			case x.rets[0] == "strings.ToUpper("+cut+"#0)" && (x.rets[1] == "[]string{}" || x.rets[1] == "nil") && has("!"+cut+"#2"):
+				okPath = true // no blank: a command word without arguments
+			}
+		}
+		if !okPath {
+			return "command parser: an exit returns something else: (" + strings.Join(x.rets, ", ") + ")"
+		}
+	}
+	if !some || w.overflow {
+		return "command parser: no exit returns the words of the line"
+	}
+	return ""
 }
